@@ -15,7 +15,8 @@ func init() {
 			"(R1) the connection factory (function value in client.newRegionClientFn) is called only inside the literal handed to clientRegionCache.put and in the tabled admin branch; in put, the address scan, the factory call and the insertion into the cache lie in one critical section of the cache mutex, the factory call is dominated by the exhausted-scan edge and the hit edge (addr == existing.Addr()) returns the existing connection; " +
 			"(R2) the dialer function value is invoked only inside the literal passed to dialOnce.Do, the two connection goroutines are started only there, and Dial's result depends only on the done channel; " +
 			"(R3) entries are deleted from the connection cache only in clientRegionCache.clientDown, reached only from client.clientDown, which is called only where a ServerError / failed dial was observed; " +
-			"(R4) a non-nil connection is attached to a region (SetClient) only in establishRegion and only with the value obtained from put (or the admin factory call).",
+			"(R4) a non-nil connection is attached to a region (SetClient) only in establishRegion and only with the value obtained from put (or the admin factory call)." +
+			" Added after the seeded-change rounds: (R2) Addr() returns the addr field, which is only ever NewClient's address parameter, unchanged (the cache compares addresses for equality); (R3) the connection declared dead after a failed result is the connection the call was queued on: handleResultError passes its rc parameter to clientDown, waitForCompletion and sendRPCToRegionClient pass their own connection parameter, and the single-call path queues on that parameter.",
 		Residue: "the number of real dials under all schedules (a count over executions); correctness of the address comparison as identity of servers",
 		Run:     runC20,
 	})
